@@ -4,6 +4,7 @@ import AuthModel.Store.Memory
 import AuthModel.Store.Redis
 import AuthModel.Oidc.Run
 import AuthModel.Oidc.Sched
+import AuthModel.Gen
 open AuthModel AuthModel.Wire
 
 def parseMatch (t : Tok) : Option StringMatch :=
@@ -270,6 +271,12 @@ def handle (d : DState) (toks : List Tok) : DState × String :=
     match parseCfg rest with
     | some c => ({ d with cfg := c }, "ok")
     | none => (d, "bad-op")
+  | [['g','e','n'], bytes] =>
+    (d, match unhex bytes with
+    | some bs => match Gen.genAll bs with
+      | some i => hex i.sid ++ " " ++ hex i.nonce ++ " " ++ hex i.state ++ " " ++ hex i.verifierBytes ++ " " ++ toString i.rest.length
+      | none => "exhausted"
+    | none => "bad-op")
   | ['r','e','q'] :: rest => handleReq d rest
   | ['s','p','a','w','n'] :: rest => handleSpawn d rest
   | [['s','t','e','p'], tid] =>
